@@ -1,5 +1,6 @@
 import AnySyncModel.Tree.Model
 import AnySyncModel.Tree.Lemmas
+import AnySyncModel.Tree.WaitLemmas
 /-!
 C06 - change order is a function of the change set; incremental equals rebuilt.
 
@@ -142,20 +143,139 @@ example :
     (add { root := some 1, att := [⟨1, [], 0, true⟩, ⟨2, [1], 1, false⟩, ⟨3, [1], 1, false⟩], lastIter := 3 }
       [⟨5, [2], 1, false⟩]).mode = .rebuild := by decide
 
+/-! ### confluence of `add` on the attached set
+
+`addSeq t L` feeds the batches `L` one after another through `add`.  `CausalFor t l`: every previous id and the
+snapshot of each element of `l` is attached in `t` or is the id of an earlier element of `l`. -/
+
+/-- **add_confluent_causal**: two deliveries of the same changes - any batching, any duplication, any two orders
+that respect causality - end with the same attached set (a permutation of the same attachment list) and hence
+present the same sequence.  (Ids are unique: `huniq`, content hashes.) -/
+theorem add_confluent_causal (t : T) (L1 L2 : List (List Change)) (r : Nat)
+    (hun : t.unatt = []) (hroot : t.root = some r) (hnd : (t.att.map (·.id)).Nodup)
+    (huniq : ∀ c ∈ t.att ++ L1.flatten ++ L2.flatten, ∀ d ∈ t.att ++ L1.flatten ++ L2.flatten, c.id = d.id → c = d)
+    (h1 : CausalFor t L1.flatten) (h2 : CausalFor t L2.flatten)
+    (hsame : ∀ c, c ∈ L1.flatten ↔ c ∈ L2.flatten) :
+    (addSeq t L1).att.Perm (addSeq t L2).att ∧ iter r (addSeq t L1).att = iter r (addSeq t L2).att :=
+  addSeq_confluent t L1 L2 hun r hroot hnd huniq h1 h2 hsame
+
+/-- … and a causal delivery attaches everything it delivers, directly (the wait list is never needed). -/
+theorem add_causal_attaches_all (t : T) (L : List (List Change)) (hun : t.unatt = []) (hroot : t.root.isSome = true)
+    (h : CausalFor t L.flatten) : ∀ c ∈ L.flatten, (addSeq t L).has c.id = true :=
+  (addSeq_causal L t hun hroot h).2.2.2.1
+
+/-- confluence at full strength: ANY two deliveries of the same changes `U` - arbitrary order inside every batch
+(so the wait list is exercised), any batching in which each batch is closed relative to the tree it arrives at
+(`SeqClosed`: some causal order of the batch exists; a change whose parent only arrives in a *later* addition is
+dropped by `clearUnattached` in the real code, so this is needed), any duplication - provided the snapshot of a
+change is attached whenever all its previous ids are (`SnapOK`: it is one of their ancestors) and ids are unique:
+all of `U` gets attached, the attachment lists are permutations of each other, the presented sequences are equal. -/
+def C06_add_confluent_full : Prop :=
+  ∀ (U : List Change) (t : T) (L1 L2 : List (List Change)) (r : Nat),
+    SnapOK U t → Inv U t → t.unatt = [] → t.root = some r →
+    (∀ a ∈ t.att ++ U, ∀ b ∈ t.att ++ U, a.id = b.id → a = b) →
+    (∀ c, c ∈ L1.flatten ↔ c ∈ U) → (∀ c, c ∈ L2.flatten ↔ c ∈ U) →
+    SeqClosed t L1 → SeqClosed t L2 →
+    (∀ c ∈ U, (addSeq t L1).has c.id = true) ∧ (addSeq t L1).att.Perm (addSeq t L2).att ∧
+    iter r (addSeq t L1).att = iter r (addSeq t L2).att
+
+/-- **add_confluent**: the full statement holds (`Tree/WaitLemmas.lean`: the wait-list invariant - every parked
+change has a missing previous id registered in the wait list - is maintained through the cascade, so nothing
+attachable is left parked). -/
+theorem add_confluent : C06_add_confluent_full :=
+  fun U t L1 L2 r hs hinv hun hroot huniq hm1 hm2 hc1 hc2 =>
+    addSeq_confluent_any U t L1 L2 r hs hinv hun hroot huniq hm1 hm2 hc1 hc2
+
+/-- **add_confluent_partial** (kept): deliveries that are themselves causally ordered need none of `SnapOK`,
+`Inv`: everything attaches directly. -/
+theorem add_confluent_partial (t : T) (L1 L2 : List (List Change)) (r : Nat)
+    (hun : t.unatt = []) (hroot : t.root = some r) (hwf : WFAtt t.att)
+    (huniq : ∀ c ∈ t.att ++ L1.flatten ++ L2.flatten, ∀ d ∈ t.att ++ L1.flatten ++ L2.flatten, c.id = d.id → c = d)
+    (h1 : CausalFor t L1.flatten) (h2 : CausalFor t L2.flatten)
+    (hsame : ∀ c, c ∈ L1.flatten ↔ c ∈ L2.flatten) :
+    (∀ c ∈ L1.flatten, (addSeq t L1).has c.id = true) ∧ (addSeq t L1).att.Perm (addSeq t L2).att :=
+  ⟨add_causal_attaches_all t L1 hun (by simp [hroot]) h1,
+   (addSeq_confluent t L1 L2 hun r hroot (hwf.split t.att [] (by simp)).2.1 huniq h1 h2 hsame).1⟩
+
+/-- non-vacuity of `add_confluent`: the diamond on top of root `1`, delivered child-first -/
+example : SnapOK [⟨4, [2, 3], 1, false⟩, ⟨3, [1], 1, false⟩, ⟨2, [1], 1, false⟩]
+    { root := some 1, att := [⟨1, [], 0, true⟩], lastIter := 1 } := by
+  intro t' _ hm c hc _
+  have : c.snap = 1 := by
+    simp at hc; rcases hc with rfl | rfl | rfl <;> rfl
+  rw [this]; exact hm 1 (by decide)
+
+example : CausalFor { root := some 1, att := [⟨1, [], 0, true⟩], lastIter := 1 }
+    [⟨2, [1], 1, false⟩, ⟨3, [1], 1, false⟩, ⟨4, [2, 3], 1, false⟩] := by
+  intro l1 c l2 h
+  match l1, h with
+  | [], h => simp at h; obtain ⟨rfl, _⟩ := h; exact ⟨by intro p hp; simp at hp; subst hp; left; decide, by left; decide⟩
+  | [_], h => simp at h; obtain ⟨rfl, rfl, _⟩ := h; exact ⟨by intro p hp; simp at hp; subst hp; left; decide, by left; decide⟩
+  | [_, _], h =>
+    simp at h; obtain ⟨rfl, rfl, rfl, _⟩ := h
+    exact ⟨by intro p hp; simp at hp; rcases hp with rfl | rfl <;> (right; simp), by left; decide⟩
+  | _ :: _ :: _ :: _ :: _, h => simp at h
+
+example :
+    let t : T := { root := some 1, att := [⟨1, [], 0, true⟩], lastIter := 1 }
+    iter 1 (addSeq t [[⟨4, [2, 3], 1, false⟩, ⟨3, [1], 1, false⟩, ⟨2, [1], 1, false⟩]]).att = [1, 2, 3, 4] ∧
+    iter 1 (addSeq t [[⟨3, [1], 1, false⟩], [⟨4, [2, 3], 1, false⟩, ⟨2, [1], 1, false⟩, ⟨4, [2, 3], 1, false⟩]]).att
+      = [1, 2, 3, 4] := by decide
+
+/-- non-vacuity: the diamond delivered as `[2],[3,4]` and as `[3],[2],[4,4]` -/
+example :
+    let t : T := { root := some 1, att := [⟨1, [], 0, true⟩], lastIter := 1 }
+    iter 1 (addSeq t [[⟨2, [1], 1, false⟩], [⟨3, [1], 1, false⟩, ⟨4, [2, 3], 1, false⟩]]).att = [1, 2, 3, 4] ∧
+    iter 1 (addSeq t [[⟨3, [1], 1, false⟩], [⟨2, [1], 1, false⟩], [⟨4, [2, 3], 1, false⟩, ⟨4, [2, 3], 1, false⟩]]).att
+      = [1, 2, 3, 4] := by decide
+
 /-! ### stored order and reduced views
 
-`storeInsert` places a change that lacks an order id right after its predecessor in the iteration.  Full
-statements (not proved in Lean; the harness checks them on every run on the real storage: `stored.causal`,
-`stored.orderid`, `iter.vs.stored`, `tree.stored`, `cross.*`, `reopen.*`, `history.order`): -/
+`storeInsert` places a change that lacks an order id right after its predecessor in the iteration. -/
 
-/-- the stored sequence after an `add` is a linear extension (every stored parent earlier) and restricted to
-the in-memory changes it is the iteration -/
+/-- **storage order** (= `orderid_matches_iter`), full strength: `stored` is the stored sequence before the
+addition (unique entries; restricted to the in-memory changes it is the iteration; none of the new changes is
+stored yet).  After `storeInsert` (= `updateHeads` giving every change that lacks an order id one strictly
+between its neighbours in the iteration, then `AddAll`):
+* the stored sequence restricted to the in-memory changes is exactly the new iteration,
+* the entries stored before keep their relative order (order ids are never rewritten),
+* nothing is stored twice. -/
 def C06_storage_order_full : Prop :=
   ∀ (stored : List Nat) (root : Nat) (att news : List Change),
-    WFAtt (att ++ news) → root ∈ att.map (·.id) →
+    WFAtt (att ++ news) → root ∈ att.map (·.id) → stored.Nodup →
     stored.filter (fun x => (att.map (·.id)).contains x) = iter root att →
+    (∀ n ∈ news, n.id ∉ stored) →
     (storeInsert stored (iter root (att ++ news))).filter (fun x => ((att ++ news).map (·.id)).contains x)
-      = iter root (att ++ news)
+        = iter root (att ++ news) ∧
+    (storeInsert stored (iter root (att ++ news))).filter (fun x => stored.contains x) = stored ∧
+    (storeInsert stored (iter root (att ++ news))).Nodup
+
+theorem storage_order : C06_storage_order_full :=
+  fun stored root att news hwf hroot hnd hst hfresh => storeInsert_spec stored root att news hwf hroot hnd hst hfresh
+
+/-- **storage order is a linear extension**: in the stored sequence after the addition every presented change
+comes after each of its presented parents. -/
+theorem storage_order_causal (stored : List Nat) (root : Nat) (att news : List Change)
+    (hwf : WFAtt (att ++ news)) (hroot : root ∈ att.map (·.id)) (hnd : stored.Nodup)
+    (hst : stored.filter (fun x => (att.map (·.id)).contains x) = iter root att)
+    (hfresh : ∀ n ∈ news, n.id ∉ stored) :
+    ∀ c ∈ att ++ news, ∀ p ∈ c.prevs, p ∈ iter root (att ++ news) →
+      pos (storeInsert stored (iter root (att ++ news))) p < pos (storeInsert stored (iter root (att ++ news))) c.id := by
+  intro c hc p hp hpi
+  obtain ⟨h1, _, _⟩ := storeInsert_spec stored root att news hwf hroot hnd hst hfresh
+  have hgood := iter_good root (att ++ news) hwf
+  have hchild : c.id ∈ children (att ++ news) p := mem_children.mpr ⟨c, hc, rfl, hp⟩
+  have hci : c.id ∈ iter root (att ++ news) := hgood.closed p hpi c.id hchild
+  have hlt := hgood.pos_lt p hpi c.id hchild
+  have hroot' : root ∈ (att ++ news).map (·.id) := by
+    rw [List.map_append]; exact List.mem_append.mpr (Or.inl hroot)
+  have hmem := iter_mem_ids root (att ++ news) hwf hroot'
+  rw [← h1] at hlt hci
+  exact pos_filter_lt_rev _ _ p c.id (List.contains_iff_mem.mpr (hmem p hpi))
+    (List.contains_iff_mem.mpr (hmem c.id (by rw [h1] at hci; exact hci))) (List.mem_filter.mp hci).1 hlt
+
+example : storeInsert [1, 3] (iter 1 [⟨1, [], 0, true⟩, ⟨3, [1], 1, false⟩, ⟨2, [1], 1, false⟩, ⟨4, [2, 3], 1, false⟩])
+    = [1, 2, 3, 4] := by decide
 
 /-- a view reduced to a later snapshot `s` is the restriction of the full order, *provided* every change below
 `s` has all its attached parents below-or-equal `s` (honest histories, DESIGN §3 Inv-S) -/
